@@ -92,8 +92,9 @@ JsonSome(fs, want, L, vo) == IF fs = <<>> THEN [L |-> L, vopen |-> vo]
 RECURSIVE JsonPaths(_, _, _, _, _, _)   \* (exprs <<label, path>>, doc, canon, L, vopen, opt)
 JsonPaths(es, doc, canon, L, vo, op) ==
   IF es = <<>> THEN [L |-> L, vopen |-> vo, opt |-> op]
-  ELSE LET lb == es[1][1] w == Walk(doc, es[1][2]) IN
-       IF ~w.found THEN JsonPaths(Tail(es), doc, canon, IF Has(L, lb) THEN L ELSE Set(L, lb, <<>>), vo, IF Has(L, lb) THEN op ELSE op \cup {lb})   \* missing path: absent or empty
+  ELSE LET lb == es[1].label w == Walk(doc, es[1].path) IN
+       IF w.dup THEN JsonPaths(Tail(es), doc, canon, IF Has(L, lb) THEN L ELSE Set(L, lb, <<>>), vo \cup {lb}, IF Has(L, lb) THEN op ELSE op \cup {lb})
+       ELSE IF ~w.found THEN JsonPaths(Tail(es), doc, canon, IF Has(L, lb) THEN L ELSE Set(L, lb, <<>>), vo, IF Has(L, lb) THEN op ELSE op \cup {lb})   \* missing path: absent or empty
        ELSE IF IsScalar(w.v) THEN JsonPaths(Tail(es), doc, canon, Set(L, lb, ScalarText(w.v)), vo \ {lb}, op \ {lb})
        ELSE IF canon THEN JsonPaths(Tail(es), doc, canon, Set(L, lb, EncJson(w.v)), vo \ {lb}, op \ {lb})                \* containers: their raw text
        ELSE JsonPaths(Tail(es), doc, canon, Set(L, lb, <<>>), vo \cup {lb}, op \ {lb})
@@ -104,18 +105,18 @@ UnpackFields(fs, L, line) == IF fs = <<>> THEN [L |-> L, line |-> line]
                              ELSE UnpackFields(Tail(fs), Set(L, fs[1][1], fs[1][2].s), line)
 RECURSIVE LogfmtSome(_, _, _)     \* (doc, mapping <<key, label>>, L)
 LogfmtSome(doc, mp, L) == IF doc = <<>> THEN L
-                          ELSE LET hits == {k \in DOMAIN mp : mp[k][1] = doc[1][1]} IN
-                               LogfmtSome(Tail(doc), mp, IF hits = {} THEN L ELSE Set(L, mp[CHOOSE k \in hits : TRUE][2], doc[1][2]))
+                          ELSE LET hits == {k \in DOMAIN mp : mp[k].key = doc[1][1]} IN
+                               LogfmtSome(Tail(doc), mp, IF hits = {} THEN L ELSE Set(L, mp[CHOOSE k \in hits : TRUE].label, doc[1][2]))
 
 \* ---- label_format / drop / keep / decolorize
 RECURSIVE ApplyRenames(_, _)      \* <<dst, src>> pairs in order: src's value moves to dst
 ApplyRenames(rs, L) == IF rs = <<>> THEN L
-                       ELSE LET dst == rs[1][1] src == rs[1][2] IN
+                       ELSE LET dst == rs[1].dst src == rs[1].src IN
                             ApplyRenames(Tail(rs), IF Has(L, src) THEN Set(Del(L, src), dst, Get(L, src)) ELSE L)
 RECURSIVE ApplyTmpls(_, _, _, _)  \* all templates read ONE snapshot (after the renames); a failing one flags __error__ and sets nothing
 ApplyTmpls(ts, snap, L, line) == IF ts = <<>> THEN L
-                                 ELSE IF Fails(ts[1][2]) THEN ApplyTmpls(Tail(ts), snap, SetError(L), line)
-                                 ELSE ApplyTmpls(Tail(ts), snap, Set(L, ts[1][1], Expand(ts[1][2], LAMBDA n : Get(snap, n), line)), line)
+                                 ELSE IF Fails(ts[1].parts) THEN ApplyTmpls(Tail(ts), snap, SetError(L), line)
+                                 ELSE ApplyTmpls(Tail(ts), snap, Set(L, ts[1].dst, Expand(ts[1].parts, LAMBDA n : Get(snap, n), line)), line)
 MatchersFor(ms, name) == SelectSeq(ms, LAMBDA m : m.label = name)
 \* a label is selected by a drop/keep list when it is named plainly, or has value matchers and all of them hold
 Selected(st, p) == LET ms == MatchersFor(Fld(st, "matchers", <<>>), p[1]) IN
@@ -134,25 +135,33 @@ StripSGR(s, i) == IF i > Len(s) THEN <<>>
 \* opt: names that may be absent (if present they carry the stated value)
 R0(keep, line, L, mem, open) == [keep |-> keep, line |-> line, L |-> L, mem |-> mem, open |-> open, lopen |-> FALSE, vopen |-> {}, opt |-> {}]
 Malformed(line, L, mem) == [keep |-> TRUE, line |-> line, L |-> SetError(L), mem |-> mem, open |-> FALSE, lopen |-> TRUE, vopen |-> {}, opt |-> {}]
+\* the ground truth of a parser stage is the document the ORIGINAL line encodes: once an earlier stage rewrote the line,
+\* what a document parser extracts from the new text is outside the model (the entry is then not compared)
+Rewritten(rec, line) == line # rec.line
 Stage(st, mem, rec, line, L) ==
-  CASE st.t = "line" -> R0(LineMatch(st.op, st.val, st.re, line), line, L, mem, FALSE)
+  CASE st.t \in {"logfmt", "json", "unpack"} /\ Rewritten(rec, line) -> R0(TRUE, line, L, mem, TRUE)
+    [] st.t = "line" -> R0(LineMatch(st.op, st.val, st.re, line), line, L, mem, FALSE)
     [] st.t = "label" -> LET r == Pred(st.pred, L) IN R0(r.keep, line, r.L, mem, r.open)
     [] st.t = "logfmt" ->
          IF Fld(rec, "lmal", FALSE) THEN Malformed(line, L, mem)
-         ELSE IF Fld(st, "labels", <<>>) = <<>> /\ Fld(st, "exprs", <<>>) = <<>> THEN R0(TRUE, line, SetAll(L, rec.doc), mem, line # EncLogfmt(rec.doc) /\ line # EncLogfmtQ(rec.doc))
-         ELSE R0(TRUE, line, LogfmtSome(rec.doc, [k \in DOMAIN Fld(st, "labels", <<>>) |-> <<st.labels[k], st.labels[k]>>] \o Fld(st, "exprs", <<>>), L), mem,
+         ELSE IF Fld(st, "labels", <<>>) = <<>> /\ Fld(st, "lexprs", <<>>) = <<>> THEN R0(TRUE, line, SetAll(L, rec.doc), mem, line # EncLogfmt(rec.doc) /\ line # EncLogfmtQ(rec.doc))
+         ELSE R0(TRUE, line, LogfmtSome(rec.doc, [k \in DOMAIN Fld(st, "labels", <<>>) |-> [key |-> st.labels[k], label |-> st.labels[k]]] \o Fld(st, "lexprs", <<>>), L), mem,
                  line # EncLogfmt(rec.doc) /\ line # EncLogfmtQ(rec.doc))
     [] st.t = "json" ->
          IF rec.jmal \/ rec.jdoc.k # "obj" THEN Malformed(line, L, mem)
          ELSE IF st.exprs # <<>> THEN
-                LET r == JsonPaths([k \in DOMAIN st.labels |-> <<st.labels[k], << [t |-> "key", key |-> st.labels[k]] >> >>] \o st.exprs,
+                LET r == JsonPaths([k \in DOMAIN st.labels |-> [label |-> st.labels[k], path |-> << [t |-> "key", key |-> st.labels[k], i |-> 0] >>]] \o st.exprs,
                                    rec.jdoc, rec.jcanon, L, {}, {})
                 IN [keep |-> TRUE, line |-> line, L |-> r.L, mem |-> mem, open |-> FALSE, lopen |-> FALSE, vopen |-> r.vopen, opt |-> r.opt]
          ELSE LET r == IF st.labels = <<>> THEN JsonAll(rec.jdoc.fields, L, {}) ELSE JsonSome(rec.jdoc.fields, PairsOf(st.labels), L, {})
               IN [keep |-> TRUE, line |-> line, L |-> r.L, mem |-> mem, open |-> FALSE, lopen |-> FALSE, vopen |-> r.vopen, opt |-> {}]
     [] st.t = "unpack" ->
          IF rec.jmal \/ rec.jdoc.k # "obj" THEN Malformed(line, L, mem)
-         ELSE LET r == UnpackFields(rec.jdoc.fields, L, line) IN R0(TRUE, r.line, r.L, mem, FALSE)
+         \* packed keys are label names; what happens to a key that is not one (1a, x y) is left open
+         ELSE LET r == UnpackFields(rec.jdoc.fields, L, line)
+                  odd == \E i \in DOMAIN rec.jdoc.fields : LET f == rec.jdoc.fields[i] IN
+                            f[2].k = "str" /\ f[1] # S_entry /\ ~(f[1] # <<>> /\ ~IsDigit(f[1][1]) /\ f[1][1] # 46 /\ \A j \in DOMAIN f[1] : IsNameByte(f[1][j]) \/ f[1][j] = 46)
+              IN R0(TRUE, r.line, r.L, mem, odd)
     [] st.t = "pattern" -> R0(TRUE, line, SetAll(L, PatMatch(st.parts, line)), mem, FALSE)
     [] st.t = "distinct" ->
          IF ~Has(L, st.label) THEN R0(TRUE, line, L, mem, FALSE)
@@ -168,7 +177,7 @@ StageWellFormed(st) ==
   CASE st.t = "line" -> (st.op \in {"re", "nre"} => st.val = ReText(st.re))
     [] st.t = "label" -> PredWellFormed(st.pred)
     [] st.t \in {"drop", "keep"} -> LET ms == Fld(st, "matchers", <<>>) IN \A k \in DOMAIN ms : ms[k].op \in {"re", "nre"} => ms[k].val = ReText(ms[k].re)
-    [] st.t = "labelfmt" -> \A k \in DOMAIN st.renames : st.renames[k][1] # st.renames[k][2]
+    [] st.t = "labelfmt" -> \A k \in DOMAIN st.renames : st.renames[k].dst # st.renames[k].src
     [] OTHER -> TRUE
 
 \* the text "| drop a != x" denotes a drop with a value matcher: a case must not mean "drop a" followed by a line filter
